@@ -253,7 +253,9 @@ def spec_run(opts, body, cur, acc):
 
 
 def no_args(body):
-    out = [("S", m[1], no_args(m[2])) if m[0] == "S" else m for m in body if not (m[0] == "F" and m[1] == "args")]
+    # `declare` inside a function makes a local, `set --`/`shift` change the function's own parameters
+    out = [("S", m[1], no_args(m[2])) if m[0] == "S" else m for m in body
+           if not (m[0] == "F" and (m[1] == "args" or m[2].startswith("declare ")))]
     return out or [("F", "env", "v1=new", "v1")]
 
 
@@ -351,7 +353,7 @@ def gen_cases(ctx):
         opts = rng.choice(OPTSETS) if rng.random() < 0.6 else ""
         body = gen_body(rng, 0, c != "backquote")
         if c == "call":
-            body = no_args(body)     # positional parameters are the function's own: not a parent-visible mutator there
+            body = no_args(body)     # only mutators whose effect outlives the function
         if c == "call" and rng.random() < 0.5:
             body.insert(rng.randrange(0, len(body) + 1), ("S", rng.choice(["pipefirst", "pipelast", "paren"]), [("R", "5")]))
         cases.append((opts, c, body))
